@@ -148,3 +148,67 @@ void h_bbb_ref(void) {
   q120_vec_mat1col_product_bbb_ref(p, ell, r, x, y);
   VACUITY_CANARY();
 }
+
+// ---- two-coefficient block forms q120x2_vec_mat{1col,2cols}_product_bbc_ref (S1, every ell <= 10000).  Same step and
+// recombination functions as above, called NROWS times per iteration on the rows of a local 2-D accumulator.  Ghost state: a
+// call counter (iteration CALLI, row CALLR), the exact sum ACC of the tracked row GROW, the operand pointers of the tracked
+// row's call in iteration GI (ties "term i of row r is formed from x[i][r&1], y[i][r]"), and for the recombination the row
+// counter FINR with the snapshot of the tracked row's words and destination.
+#ifndef NROWS
+#define NROWS 2
+#endif
+#ifndef GROW
+#define GROW 0
+#endif
+GHOST uint64_t CALLI;
+GHOST uint64_t CALLR;
+GHOST uint64_t FINR;
+GHOST uint64_t GI;
+GHOST const void* GX;
+GHOST const void* GY;
+GHOST const void* GRES;
+void q120x2_vec_mat1col_product_bbc_ref(q120_mat1col_product_bbc_precomp* precomp, const uint64_t ell, q120b* const res, const q120b* const x, const q120c* const y);
+void q120x2_vec_mat2cols_product_bbc_ref(q120_mat1col_product_bbc_precomp* precomp, const uint64_t ell, q120b* const res, const q120b* const x, const q120c* const y);
+#define WORDS_GROW_BOUNDED(res) (res[0] >= __CPROVER_old(res[0]) && res[0] - __CPROVER_old(res[0]) <= STEP_MAX && res[1] >= __CPROVER_old(res[1]) && res[1] - __CPROVER_old(res[1]) <= STEP_MAX \
+  && res[2] >= __CPROVER_old(res[2]) && res[2] - __CPROVER_old(res[2]) <= STEP_MAX && res[3] >= __CPROVER_old(res[3]) && res[3] - __CPROVER_old(res[3]) <= STEP_MAX \
+  && res[4] >= __CPROVER_old(res[4]) && res[4] - __CPROVER_old(res[4]) <= STEP_MAX && res[5] >= __CPROVER_old(res[5]) && res[5] - __CPROVER_old(res[5]) <= STEP_MAX \
+  && res[6] >= __CPROVER_old(res[6]) && res[6] - __CPROVER_old(res[6]) <= STEP_MAX && res[7] >= __CPROVER_old(res[7]) && res[7] - __CPROVER_old(res[7]) <= STEP_MAX)
+void accum_mul_x2__c(uint64_t res[8], const uint32_t x_layb[8], const uint32_t y_layc[8])
+__CPROVER_requires(__CPROVER_w_ok(res, 64) && __CPROVER_r_ok(x_layb, 32) && __CPROVER_r_ok(y_layc, 32) && CALLR < NROWS)
+__CPROVER_requires(res[0] <= BUDGET - STEP_MAX && res[1] <= BUDGET - STEP_MAX && res[2] <= BUDGET - STEP_MAX && res[3] <= BUDGET - STEP_MAX && res[4] <= BUDGET - STEP_MAX && res[5] <= BUDGET - STEP_MAX && res[6] <= BUDGET - STEP_MAX && res[7] <= BUDGET - STEP_MAX)
+__CPROVER_assigns(__CPROVER_object_upto(res, 64), __CPROVER_object_whole(ACC), __CPROVER_object_whole(GTERM), CALLI, CALLR, GX, GY)
+__CPROVER_ensures(WORDS_GROW_BOUNDED(res))
+__CPROVER_ensures(__CPROVER_old(CALLR) == GROW ==> (VK(res, LANE) == VKOLD(res, LANE) + GTERM[LANE] && ACC[LANE] == __CPROVER_old(ACC[LANE]) + GTERM[LANE]))
+__CPROVER_ensures(__CPROVER_old(CALLR) != GROW ==> ACC[LANE] == __CPROVER_old(ACC[LANE]))
+__CPROVER_ensures((__CPROVER_old(CALLR) == GROW && __CPROVER_old(CALLI) == GI) ? (GX == (const void*)x_layb && GY == (const void*)y_layc) : (GX == __CPROVER_old(GX) && GY == __CPROVER_old(GY)))
+__CPROVER_ensures(__CPROVER_old(CALLR) + 1 == NROWS ? (CALLR == 0 && CALLI == __CPROVER_old(CALLI) + 1) : (CALLR == __CPROVER_old(CALLR) + 1 && CALLI == __CPROVER_old(CALLI)))
+;
+void accum_to_q120b_x2__c(uint64_t res[4], const uint64_t s[8], const q120_mat1col_product_bbc_precomp* precomp)
+__CPROVER_requires(__CPROVER_w_ok(res, 32) && __CPROVER_r_ok(s, 64) && __CPROVER_r_ok(precomp, sizeof(*precomp)) && WF_BBC(precomp))
+__CPROVER_requires(s[0] <= BUDGET && s[1] <= BUDGET && s[2] <= BUDGET && s[3] <= BUDGET && s[4] <= BUDGET && s[5] <= BUDGET && s[6] <= BUDGET && s[7] <= BUDGET)
+__CPROVER_assigns(__CPROVER_object_upto(res, 32), __CPROVER_object_whole(GS0), __CPROVER_object_whole(GS1), FINR, GRES)
+__CPROVER_ensures((u128)res[0] == TOQ(s, precomp, 0) && (u128)res[1] == TOQ(s, precomp, 1) && (u128)res[2] == TOQ(s, precomp, 2) && (u128)res[3] == TOQ(s, precomp, 3))
+__CPROVER_ensures(__CPROVER_old(FINR) == GROW ? (GS0[LANE] == s[2 * LANE] && GS1[LANE] == s[2 * LANE + 1] && GRES == (const void*)res) : (GS0[LANE] == __CPROVER_old(GS0[LANE]) && GS1[LANE] == __CPROVER_old(GS1[LANE]) && GRES == __CPROVER_old(GRES)))
+__CPROVER_ensures(FINR == __CPROVER_old(FINR) + 1)
+;
+void bbc_x2_ref__c(q120_mat1col_product_bbc_precomp* precomp, const uint64_t ell, q120b* const res, const q120b* const x, const q120c* const y)
+__CPROVER_requires(ell <= MAX_ELL && ACC[LANE] == 0 && CALLI == 0 && CALLR == 0 && FINR == 0 && GI < ell)
+__CPROVER_requires(__CPROVER_is_fresh(precomp, sizeof(*precomp)) && WF_BBC(precomp))
+__CPROVER_requires(__CPROVER_is_fresh(res, 32 * NROWS) && __CPROVER_is_fresh(x, ell * 64) && __CPROVER_is_fresh(y, ell * 32 * NROWS))
+__CPROVER_assigns(__CPROVER_object_upto(res, 32 * NROWS), __CPROVER_object_whole(ACC), __CPROVER_object_whole(GTERM), __CPROVER_object_whole(GS0), __CPROVER_object_whole(GS1), CALLI, CALLR, FINR, GX, GY, GRES)
+__CPROVER_ensures((u128)GS0[LANE] + (((u128)GS1[LANE]) << 32) == ACC[LANE]) /*@bbc_x2_accumulator_words_of_row_sum_to_exact_sum_of_terms:C10,C04*/
+__CPROVER_ensures(GS0[LANE] <= BUDGET && GS1[LANE] <= BUDGET) /*@bbc_x2_accumulators_within_budget_no_wrap:C04,C10*/
+__CPROVER_ensures(GRES == (const void*)((const uint64_t*)res + 4 * GROW)) /*@bbc_x2_row_r_is_stored_at_result_block_r:C10*/
+__CPROVER_ensures((u128)((const uint64_t*)res)[4 * GROW + LANE] == (u128)GS0[LANE] + (u128)(GS1[LANE] & MASK2) * (u128)precomp->s2l_pow_red[LANE] + (u128)(GS1[LANE] >> BBC_H) * (u128)precomp->s2h_pow_red[LANE]) /*@bbc_x2_result_is_recombination_without_wrap:C10,C04*/
+__CPROVER_ensures(GX == (const void*)((const char*)x + 64 * GI + 32 * (GROW & 1)) && GY == (const void*)((const char*)y + 32 * NROWS * GI + 32 * GROW)) /*@bbc_x2_term_i_of_row_r_is_x_i_rmod2_times_y_i_r:C10*/
+;
+void h_bbc_x2_ref(void) {
+  q120_mat1col_product_bbc_precomp* p; uint64_t ell; q120b* r; const q120b* x; const q120c* y;
+  ACC[LANE] = 0; CALLI = 0; CALLR = 0; FINR = 0; GI = nondet_u64();
+#if NROWS == 2
+  q120x2_vec_mat1col_product_bbc_ref(p, ell, r, x, y);
+#else
+  q120x2_vec_mat2cols_product_bbc_ref(p, ell, r, x, y);
+#endif
+  VACUITY_CANARY();
+}
